@@ -82,7 +82,10 @@ def make_payload(kind, nrec, variant, sdir, rng):
     return os.path.basename(root), None
 
 
-def run_case(tid, kind, nrec, variant, sig, chunk, rng):
+BAD_HASHES = 9      # spellings of "a different hash" (run_case)
+
+
+def run_case(tid, kind, nrec, variant, sig, chunk, rng, badhash=None):
     base = os.path.join(common.OUT, "sbx_%d_%d" % (os.getpid(), tid))
     shutil.rmtree(base, ignore_errors=True)
     sdir, rdir = os.path.join(base, "s"), os.path.join(base, "r")
@@ -105,7 +108,10 @@ def run_case(tid, kind, nrec, variant, sig, chunk, rng):
             def bad_close(self, record_pipe, datahash, fault=fault):
                 ack = {"ack": "ok", "sha256": bytes_to_hexstr(datahash)}
                 if fault == "badhash":
-                    ack["sha256"] = "00" * 32
+                    # "a different hash": anything but the digest of what was sent
+                    good = ack["sha256"]
+                    ack["sha256"] = ["00" * 32, "", None, 0, good[:-1], good + "0",
+                                     good[:-1] + ("0" if good[-1] != "0" else "1"), False, []][(variant if badhash is None else badhash) % BAD_HASHES]
                 elif fault == "nohash":
                     del ack["sha256"]
                 else:
@@ -260,6 +266,15 @@ def run(prop, tier):
                     got = {"okS": rec["okS"], "okR": rec["okR"], "dest": "src" if rec["destExists"] and rec["equal"] else ("-" if not rec["destExists"] else "other")}
                     if got != exp and len(drift) < 10:
                         drift.append({"tid": tid, "kind": kind, "n": n, "sig": {k: sig[k] for k in ("fault", "at")}, "spec": exp, "real": got})
+        # family: every spelling of "the acknowledgement carries a different hash" (the model's ack kind "badhash")
+        bh = [sig for key, sig in sorted(sigs.items(), key=lambda kv: str(kv[0])) if sig["fault"] == "badhash"][:1 if quick else 3]
+        for sig in bh:
+            for b in range(BAD_HASHES):
+                tid += 1
+                rec = run_case(tid, "file", max(1, [k[0] for k, s_ in sigs.items() if s_ is sig][0]), b, sig, None, random.Random(seed * 131 + tid), badhash=b)
+                rec["origin"] = "family:badhash:%d" % b
+                records.append(rec)
+        cov["badhash_spellings"] = BAD_HASHES * len(bh)
         texts = ["hello", " ", "multi\nline\ttab", "ünïcode ☃", "quote'and\"dq", "\x1b[31mred", "x" * 5000,
                  # quotes and backslashes at the edges, where a careless un-quoting of repr() goes wrong
                  "'", '"', "'hello'", '"hello"', 'say "cheese"', "rock 'n'", "''", "\\", "ends with backslash\\", "'\"", "a\x00b", "\x7f"]
